@@ -18,8 +18,8 @@ import time
 
 ROOT = os.path.dirname(os.path.dirname(os.path.abspath(__file__)))
 SPEC = os.path.join(ROOT, "spec")
-HARNESS = os.path.join(ROOT, "harness")
-WORK = os.path.join(ROOT, "work")
+HARNESS = os.environ.get("VERIF_HARNESS", os.path.join(ROOT, "harness"))
+WORK = os.environ.get("VERIF_WORK", os.path.join(ROOT, "work"))
 EVID = os.environ.get("VERIF_EVID", os.path.join(ROOT, "evidence"))       # overridden when a seeded change is being tried
 REPLAYS = os.environ.get("VERIF_REPLAYS", os.path.join(ROOT, "replays"))
 REPO = os.environ.get("VERIF_REPO", "/repo")
@@ -112,6 +112,18 @@ BUILDS = {
     "relchk": (["--release"], "-C overflow-checks=on -C debug-assertions=on", ""),
 }
 _built = {}
+_link_lock = __import__("threading").Lock()
+
+
+def _ensure_link():
+    link = os.path.join(HARNESS, "repo-link")
+    with _link_lock:
+        if not os.path.islink(link) or os.readlink(link) != REPO:
+            try:
+                os.remove(link)
+            except FileNotFoundError:
+                pass
+            os.symlink(REPO, link)
 
 
 def build(tag, allow_fail=False):
@@ -119,7 +131,10 @@ def build(tag, allow_fail=False):
     if tag in _built:
         return _built[tag]
     prof, flags, feats = BUILDS[tag]
-    tdir = os.path.join(HARNESS, "target", tag)
+    # the harness depends on the crate through the link harness/repo-link -> VERIF_REPO (default /repo), so that a run can be
+    # pointed at a scratch copy of the repository; builds of another repository get their own target directory
+    _ensure_link()
+    tdir = os.path.join(HARNESS, "target", tag if REPO == "/repo" else "%s-%s" % (tag, hashlib.sha256(REPO.encode()).hexdigest()[:8]))
     cmd = ["cargo", "build", "--offline", "--manifest-path", os.path.join(HARNESS, "Cargo.toml"), "--target-dir", tdir] + prof
     if feats:
         cmd += ["--features", feats]
